@@ -238,3 +238,340 @@ def transition_order_monitor(ctx, info, res):
                   "framer %s tick %d (%s -> %s): enter/exit/renter/rexit events %s, expected %s" % (
                       name, s["tick"], bact, aact, got, exp),
                   lambda: {"framer": name, "tick": s["tick"], "from": bact, "to": aact, "observed": got, "expected": exp})
+
+
+# --------------------------------------------------------------------------- C08
+def eval_let(needs, snap):
+    """evaluate `let` needs (comparisons of watched shares with literals) on a recorded store snapshot"""
+    from vf.flo.refint import cmp_eval
+    for n in needs:
+        if n["n"] != "cmp" or n["state"] not in snap or isinstance(n["goal"], dict):
+            return None
+        r = cmp_eval(snap[n["state"]]["value"], n["op"], n["goal"], n.get("tol"))
+        if n.get("neg"):
+            r = not r
+        if not r:
+            return False
+    return True
+
+
+EFFECT_CTX = ("enter", "exit", "renter", "rexit")
+
+
+def guard_monitor(ctx, info, res):
+    """C08: a frame is entered only if its `let` conditions (and its plain auxes' first-outline conditions)
+    held at the latest attempt; a refused attempt has no exit/rexit/renter/enter effects and leaves the
+    framer's clocks and active frame alone.  Needs a benter recorder first in every frame."""
+    prevpost = {}
+    for s in res.sends:
+        if "seq_end" not in s:
+            continue
+        if s["depth"] == 0:
+            evs = res.trace[s["seq"]:s["seq_end"]]
+            pending = {}        # framer -> index of refused attempt still in force
+            last_attempt = {}   # (framer, frame) -> (index, ok)
+            for j, e in enumerate(evs):
+                ctx.event()
+                fr, f = e["framer"], e["frame"]
+                if e["ctx"] == "benter":
+                    needs = info.guarded.get((fr, f), [])
+                    ok = eval_let(needs, e["snap"] or {}) if needs else True
+                    if ok is None:
+                        continue
+                    last_attempt[(fr, f)] = (j, ok)
+                    pending.pop(fr, None)
+                    if ok:
+                        ctx.hit("attempts_admitted")
+                    else:
+                        ctx.hit("attempts_refused")
+                        pending[fr] = j
+                        if info.sched[fr] == "aux":
+                            # the refused aux first-frame guard also refuses the transition / start in progress
+                            for k in range(j - 1, -1, -1):
+                                if evs[k]["ctx"] == "benter" and info.sched[evs[k]["framer"]] != "aux":
+                                    owner = evs[k]["framer"]
+                                    if fr in sum([info.plain.get((owner, x), []) for x in info.S[owner].order], []):
+                                        pending[owner] = j
+                                        ctx.hit("aux_guard_refusals")
+                                    break
+                                if evs[k]["ctx"] != "benter":
+                                    break
+                elif e["ctx"] in EFFECT_CTX:
+                    if fr in pending:
+                        ctx.fail("refused-attempt-had-effects",
+                                 "tick %d: %s.%s %s action ran after an entry attempt of framer %s was refused" % (
+                                     e["tick"], fr, f, e["ctx"], fr),
+                                 {"tick": e["tick"], "event": {k: e[k] for k in ("framer", "frame", "ctx", "tag")},
+                                  "refused_attempt": {k: evs[pending[fr]][k] for k in ("framer", "frame", "ctx", "tag", "snap")}})
+                        pending.pop(fr, None)
+                    if e["ctx"] == "enter":
+                        needs = info.guarded.get((fr, f), [])
+                        if needs:
+                            la = last_attempt.get((fr, f))
+                            ctx.hit("guarded_enters")
+                            ctx.check(la is not None and la[1], "entered-with-unsatisfied-guard",
+                                      "tick %d: frame %s.%s entered although its let conditions did not hold at the latest attempt" % (
+                                          e["tick"], fr, f),
+                                      lambda: {"tick": e["tick"], "frame": [fr, f], "needs": needs,
+                                               "attempt": None if la is None else evs[la[0]].get("snap")})
+                        for a in info.plain.get((fr, f), []):
+                            Sa = info.S[a]
+                            for g in Sa.outline(Sa.first):
+                                if info.guarded.get((a, g)):
+                                    la = last_attempt.get((a, g))
+                                    ctx.check(la is not None and la[1], "entered-with-unsatisfied-aux-guard",
+                                              "tick %d: frame %s.%s entered although first-frame condition of its aux %s (%s) did not hold" % (
+                                                  e["tick"], fr, f, a, g), lambda: {"tick": e["tick"], "frame": [fr, f], "aux": a})
+        # clocks / active frame untouched when nothing was entered
+        name = s["tasker"]
+        sp = s.get("selfpost")
+        if sp and name in info.recorded:
+            pp = prevpost.get(name)
+            own_enters = [e for e in res.trace[s["seq"]:s["seq_end"]] if e["framer"] == name and e["ctx"] == "enter"]
+            if pp and s["control"] == "run" and pp["status"] in RUNNINGS and sp["status"] in RUNNINGS:
+                if not own_enters:
+                    ctx.hit("no_transition_runs")
+                    ctx.check(sp["recurred"] == pp["recurred"] + 1 and sp["elapsed"] > pp["elapsed"] - 1e-12
+                              and sp["active"] == pp["active"] and sp["humanShr"] == pp["humanShr"],
+                              "clocks-or-outline-changed-without-transition",
+                              "tick %d: framer %s took no transition but recurred %s->%s elapsed %s->%s active %s->%s" % (
+                                  s["tick"], name, pp["recurred"], sp["recurred"], pp["elapsed"], sp["elapsed"], pp["active"], sp["active"]),
+                              lambda: {"tick": s["tick"], "framer": name, "before": pp, "after": sp})
+                else:
+                    ctx.check(sp["recurred"] == 0 and sp["elapsed"] == 0.0, "clocks-not-restarted-on-transition",
+                              "tick %d: framer %s entered %s but recurred=%s elapsed=%s" % (
+                                  s["tick"], name, [e["frame"] for e in own_enters], sp["recurred"], sp["elapsed"]),
+                              lambda: {"tick": s["tick"], "framer": name, "after": sp})
+            prevpost[name] = sp
+
+
+# --------------------------------------------------------------------------- C09
+def aux_monitor(ctx, info, res):
+    """C09: plain auxiliaries live exactly as long as their main frame (see DESIGN C09)."""
+    inside = {}
+    prevpost = None
+    owner = {}     # aux -> (framer, frame) under which it is currently entered (from enter order)
+    for s in res.sends:
+        if s["depth"] != 0 or "seq_end" not in s:
+            continue
+        evs = res.trace[s["seq"]:s["seq_end"]]
+        X = s["tasker"]
+        for j, e in enumerate(evs):
+            ctx.event()
+            fr, f, c = e["framer"], e["frame"], e["ctx"]
+            key = (fr, f)
+            if c == "enter":
+                inside[key] = True
+                auxes = info.plain.get(key, [])
+                if auxes and fr in info.recorded:
+                    exp = []
+                    for a in auxes:
+                        Sa = info.S[a]
+                        exp += [(a, g, "enter") for g in Sa.outline(Sa.first)]
+                    # events after the frame's own enter recorder(s)
+                    k = j + 1
+                    while k < len(evs) and evs[k]["framer"] == fr and evs[k]["frame"] == f and evs[k]["ctx"] == "enter":
+                        k += 1
+                    if k == j + 1:
+                        got = [(x["framer"], x["frame"], x["ctx"]) for x in evs[k:k + len(exp)]]
+                        ctx.hit("aux_activations", len(auxes))
+                        ctx.check(got == exp, "aux-not-started-right-after-main-frame-enter",
+                                  "tick %d: after entering %s.%s expected its auxes' first outlines %s to be entered next, saw %s" % (
+                                      e["tick"], fr, f, exp, got), lambda: {"tick": e["tick"], "frame": [fr, f], "expected": exp, "observed": got})
+                        for a in auxes:
+                            if a in owner and owner[a] != key:
+                                ctx.hit("shared_original_reused")
+                            owner[a] = key
+            elif c == "exit":
+                inside[key] = False
+                for a in info.plain.get(key, []):
+                    left = [k2 for k2, v in inside.items() if v and k2[0] == a]
+                    if owner.get(a) == key:
+                        ctx.hit("aux_exits_checked")
+                        ctx.check(not left, "aux-still-entered-at-main-frame-exit",
+                                  "tick %d: exit actions of %s.%s ran while frames %s of its aux %s were still entered" % (
+                                      e["tick"], fr, f, left, a), lambda: {"tick": e["tick"], "frame": [fr, f], "aux": a, "left": left})
+            elif c == "recur" and fr in info.recorded:
+                post = s.get("post") or {}
+                auxes = [a for a in info.plain.get(key, []) if owner.get(a) == key]
+                if auxes and post.get(fr) and f in post[fr]["actives"]:
+                    k = j + 1
+                    while k < len(evs) and evs[k]["framer"] == fr and evs[k]["frame"] == f and evs[k]["ctx"] == "recur":
+                        k += 1
+                    if k == j + 1:
+                        exp = []
+                        for a in auxes:
+                            exp += [(a, g, "recur") for g in (post.get(a) or {}).get("actives", [])]
+                        got = [(x["framer"], x["frame"], x["ctx"]) for x in evs[k:k + len(exp)]]
+                        ctx.hit("aux_recurs_checked")
+                        ctx.check(got == exp, "aux-recur-not-right-after-main-frame-recur",
+                                  "tick %d: after recur of %s.%s expected aux recur actions %s, saw %s" % (e["tick"], fr, f, exp, got),
+                                  lambda: {"tick": e["tick"], "frame": [fr, f], "expected": exp, "observed": got})
+        # one aux run per main run, aux transitions first
+        if prevpost and s["control"] == "run" and X in info.recorded and prevpost.get(X, {}).get("status") in RUNNINGS:
+            first_own_precur = next((j for j, e in enumerate(evs) if e["framer"] == X and e["ctx"] == "precur"), None)
+            for f in prevpost[X]["actives"]:
+                for a in info.plain.get((X, f), []):
+                    pa = prevpost.get(a)
+                    if not pa or not pa["actives"] or pa["main"] != [X, f] or a not in info.recorded:
+                        continue
+                    top = pa["actives"][0]
+                    idx = [j for j, e in enumerate(evs) if e["framer"] == a and e["frame"] == top and e["ctx"] == "precur"]
+                    ctx.hit("aux_runs_checked")
+                    ctx.check(len(idx) == 1, "aux-not-run-once-per-main-run",
+                              "tick %d: aux %s of active frame %s.%s evaluated its transitions %d times in one run of %s" % (
+                                  s["tick"], a, X, f, len(idx), X), lambda: {"tick": s["tick"], "aux": a, "main": [X, f]})
+                    if idx and first_own_precur is not None:
+                        ctx.check(idx[0] < first_own_precur, "aux-transitions-after-main-framer-transitions",
+                                  "tick %d: aux %s evaluated its transitions after the main framer %s began evaluating its own" % (
+                                      s["tick"], a, X), lambda: {"tick": s["tick"], "aux": a, "main": [X, f]})
+        # done needs
+        for j, e in enumerate(evs):
+            if e["ctx"] != "precur" or e["framer"] != X or not e.get("done"):
+                continue
+            fobj = info.S[X].frames[e["frame"]]
+            gos = [st for st in fobj["stmts"] if st["v"] in ("go", "timeout", "repeat") or (st["v"] == "aux" and st.get("needs"))]
+            if not gos or gos[0]["v"] != "go" or len(gos[0]["needs"]) != 1 or gos[0]["needs"][0]["n"] != "auxdone":
+                continue
+            n = gos[0]["needs"][0]
+            fname = e["frame"] if n.get("frame") in (None, "me", "me!") else n["frame"]
+            auxes = info.plain.get((X, fname), [])
+            done = e["done"]
+            if n["which"] == "any":
+                val = any(done.get(a) for a in auxes)
+            elif n["which"] == "all":
+                val = bool(auxes) and all(done.get(a) for a in auxes)
+            else:
+                val = (n["which"] in auxes) and bool(done.get(n["which"])) if n.get("frame") else bool(done.get(n["which"]))
+            far = info.S[X].resolve_far(e["frame"], gos[0]["far"])
+            if far is None or info.guarded.get((X, far)) or any(info.plain.get((X, g)) or info.guarded.get((X, g))
+                                                                for g in info.S[X].outline(far)):
+                continue
+            later_own = [x for x in evs[j + 1:] if x["framer"] == X and x["ctx"] in EFFECT_CTX]
+            ctx.hit("done_need_" + n["which"] if n["which"] in ("any", "all") else "done_need_named")
+            if val:
+                ctx.check(bool(later_own), "done-need-true-but-transition-not-taken",
+                          "tick %d: `%s` in %s.%s is true (done flags %s) but no transition followed" % (
+                              e["tick"], P.render_need(n), X, e["frame"], done), lambda: {"tick": e["tick"], "need": n, "done": done})
+            elif len(gos) == 1 and e["frame"] == (prevpost or {}).get(X, {}).get("actives", [None])[-1]:
+                ctx.check(not later_own, "done-need-false-but-transition-taken",
+                          "tick %d: `%s` in %s.%s is false (done flags %s) but a transition followed" % (
+                              e["tick"], P.render_need(n), X, e["frame"], done), lambda: {"tick": e["tick"], "need": n, "done": done})
+        if s.get("post"):
+            prevpost = s["post"]
+
+
+# --------------------------------------------------------------------------- C10
+def suspend_monitor(ctx, info, res):
+    """C10: conditional auxiliaries suspend the frames below their main frame (see DESIGN C10)."""
+    conds = [(X, M, a) for (X, M), auxes in info.cond.items() for a in auxes]
+    prevpost = None
+    cut_seen = {}
+    for s in res.sends:
+        if s["depth"] != 0 or "seq_end" not in s or not s.get("post"):
+            continue
+        post = s["post"]
+        evs = res.trace[s["seq"]:s["seq_end"]]
+        X = s["tasker"]
+        for (fx, M, a) in conds:
+            if fx != X or X not in info.recorded or a not in info.recorded:
+                continue
+            ctx.event()
+            S = info.S[X]
+            was = bool(prevpost and prevpost.get(a, {}).get("actives") and not prevpost[a]["done"] and prevpost[a]["main"] == [X, M])
+            now = bool(post.get(a, {}).get("actives") and not post[a]["done"] and post[a]["main"] == [X, M])
+            a_idx = [j for j, e in enumerate(evs) if e["framer"] == a]
+            a_enters = [j for j in a_idx if evs[j]["ctx"] == "enter"]
+            a_exits = [j for j in a_idx if evs[j]["ctx"] == "exit"]
+            own_fx = [j for j, e in enumerate(evs) if e["framer"] == X and e["ctx"] in EFFECT_CTX]
+            m_exited = any(evs[j]["frame"] == M and evs[j]["ctx"] == "exit" for j in own_fx)
+            if was and s["control"] == "run":
+                full_before = S.outline(prevpost[X]["active"]) if prevpost[X]["active"] else []
+                below = full_before[full_before.index(M) + 1:] if M in full_before else []
+                # M itself suspended by a running conditional aux higher in the outline: its own aux does not run
+                higher = [(m2, a2) for (x2, m2, a2) in conds if x2 == X and m2 != M and m2 in S.head(M)
+                          and prevpost.get(a2, {}).get("actives") and not prevpost[a2]["done"] and prevpost[a2]["main"] == [X, m2]]
+                higher_now = [(m2, a2) for (x2, m2, a2) in conds if x2 == X and m2 != M and m2 in S.head(M)
+                              and post.get(a2, {}).get("actives") and not post[a2]["done"] and post[a2]["main"] == [X, m2]]
+                if higher or higher_now:     # (an upper aux running, or activated in this very run before M was evaluated)
+                    ctx.hit("nested_lower_aux_suspended")
+                    continue
+                ctx.hit("runs_while_aux_running")
+                lost = prevpost[X]["actives"] != S.head(M)
+                skey = "suspended-frame-acted"
+                if lost and cut_seen.get((X, M, a)):
+                    skey = "conditional-aux-truncation-lost-after-reactivation"      # see the C05 known finding
+                    ctx.hit("known_truncation_lost")
+                early = [j for j in own_fx if not a_idx or j < a_idx[0]]
+                if not early:
+                    top = prevpost[a]["actives"][0]
+                    n = len([j for j in a_idx if evs[j]["frame"] == top and evs[j]["ctx"] == "precur"])
+                    ctx.check(n == 1, "running-conditional-aux-not-run-once",
+                              "tick %d: running conditional aux %s of %s.%s was run %d times in this run" % (s["tick"], a, X, M, n),
+                              lambda: {"tick": s["tick"], "aux": a, "main": [X, M]})
+                completed = bool(a_exits) and not now and not m_exited
+                if completed:
+                    ctx.hit("cond_aux_completions")
+                last_a = a_idx[-1] if a_idx else -1
+                later_trans = [j for j in own_fx if j > last_a] if completed else []
+                for j, e in enumerate(evs):
+                    if e["framer"] != X or e["frame"] not in below:
+                        continue
+                    if m_exited:
+                        m_exit_at = [k for k in own_fx if evs[k]["frame"] == M and evs[k]["ctx"] == "exit"][0]
+                        ok = e["ctx"] == "exit" or j > m_exit_at      # after the main frame is out a new outline is entered
+                        why = "its main frame is being exited: only exit actions of suspended frames may run before that"
+                    elif completed:
+                        ok = j > last_a and (e["ctx"] == "recur" or bool(later_trans))
+                        why = "the aux completed: suspended frames resume (recur, no re-entry) only after the aux is exited"
+                        if ok and e["ctx"] == "recur":
+                            ctx.hit("resumed_same_tick")
+                    elif early:
+                        ok = True       # a transition taken above / before the aux clause decides (C05 known finding territory)
+                        why = ""
+                    else:
+                        ok = False
+                        why = "the conditional aux is still running"
+                    ctx.check(ok, skey,
+                              "tick %d: %s action of suspended frame %s.%s ran while conditional aux %s of %s: %s" % (
+                                  s["tick"], e["ctx"], X, e["frame"], a, M, why),
+                              lambda: {"tick": s["tick"], "event": {k: e[k] for k in ("framer", "frame", "ctx", "tag")}, "aux": a, "main": [X, M]})
+                if completed and below and not later_trans and not lost:
+                    rec_below = [e for j, e in enumerate(evs) if e["framer"] == X and e["frame"] in below and e["ctx"] == "recur" and j > last_a]
+                    ctx.check(len(rec_below) == len(below), "suspended-frames-did-not-resume-same-tick",
+                              "tick %d: conditional aux %s completed but recur actions of %s ran for %s only" % (
+                                  s["tick"], a, below, [e["frame"] for e in rec_below]), lambda: {"tick": s["tick"], "aux": a, "main": [X, M]})
+                if now and not early:
+                    late = [j for j in own_fx if a_idx and j > a_idx[0]]
+                    ctx.check(not late, "later-clause-not-skipped-while-aux-running",
+                              "tick %d: framer %s performed a transition after running its still-running conditional aux %s" % (
+                                  s["tick"], X, a), lambda: {"tick": s["tick"], "aux": a, "main": [X, M]})
+                    ctx.hit("later_clauses_skipped")
+                if m_exited:
+                    ctx.hit("main_exited_while_suspended")
+                    left = post.get(a, {}).get("actives")
+                    ctx.check(not left, "conditional-aux-outlives-main-frame",
+                              "tick %d: main frame %s.%s was exited but its conditional aux %s is still active %s" % (
+                                  s["tick"], X, M, a, left), lambda: {"tick": s["tick"], "aux": a, "main": [X, M]})
+                if not now:
+                    cut_seen.pop((X, M, a), None)
+            elif not was and a_enters:
+                # activation: entered and run once in the same run
+                ctx.hit("cond_aux_activations")
+                Sa = info.S[a]
+                exp = Sa.outline(Sa.first)
+                got = [evs[j]["frame"] for j in a_enters[:len(exp)]]
+                recurs = [j for j in a_idx if evs[j]["ctx"] == "recur" and j > a_enters[0]]
+                ctx.check(got == exp and bool(recurs), "conditional-aux-not-entered-and-run-once",
+                          "tick %d: conditional aux %s activated: entered %s (first outline %s), recur events %d" % (
+                              s["tick"], a, got, exp, len(recurs)), lambda: {"tick": s["tick"], "aux": a})
+                if not now and not m_exited:
+                    ctx.hit("cond_aux_immediate")
+                    ctx.check(bool(a_exits) and not post.get(a, {}).get("actives"), "immediately-done-conditional-aux-not-exited",
+                              "tick %d: conditional aux %s completed in its first run but was not exited" % (s["tick"], a),
+                              lambda: {"tick": s["tick"], "aux": a})
+                elif now:
+                    ctx.hit("cond_aux_later_or_never")
+                    if post[X]["actives"] == S.head(M):
+                        cut_seen[(X, M, a)] = True
+        prevpost = post
